@@ -94,7 +94,7 @@ def _line_of(src, off):
 
 
 class Weaver:
-    def __init__(self, unit_path, repo=REPO, canary=False, cfg=None, inline_helpers=None):
+    def __init__(self, unit_path, repo=REPO, canary=False, cfg=None, inline_helpers=None, ghost_free=False):
         self.unit_path = unit_path
         self.unit = os.path.splitext(os.path.basename(unit_path))[0]
         self.repo = repo
@@ -107,6 +107,7 @@ class Weaver:
         self.rules = []         # R1 / E6 applications
         self.assumptions = []   # external_body / assume_specification / uninterp occurrences
         self.inline_helpers = set(inline_helpers or [])
+        self.ghost_free = ghost_free      # emit extracted functions with rule R1 applied but without any contract / proof text
         self._src_cache = {}
         # `//@cfg-bodies` anywhere in the unit: #[cfg(..)] inside extracted text is evaluated (rule E3 applied to bodies)
         self.cfg_bodies = '//@cfg-bodies' in open(unit_path).read()
@@ -124,6 +125,15 @@ class Weaver:
         return self._src_cache[rel]
 
     def emit(self, text, origin):
+        if self.ghost_free:
+            k = origin.get('k')
+            what = origin.get('what', '')
+            if k in ('clause', 'canary', 'tmpl', 'header'):
+                return
+            if k == 'ghost' and what != 'R1' and what != 'nl':
+                return
+            if k == 'ghost-inline':
+                return
         if text:
             self.segs.append(Seg(text, origin))
 
